@@ -7,5 +7,5 @@ git -C /repo worktree add --detach $WT HEAD >/dev/null 2>&1
 KEY=$(python3 -c "import hashlib,sys; print(hashlib.sha1(sys.argv[1].encode()).hexdigest()[:8])" $WT)
 trap "git -C /repo worktree remove --force $WT >/dev/null 2>&1; rm -rf /verif/.cache/obj_scratch/$KEY /verif/.cache/*/harness_*_$KEY 2>/dev/null" EXIT
 if [ "$1" = "-e" ]; then sed -i "$2" $WT/$3; git -C $WT diff --stat | tail -1; else git -C $WT apply "$1"; fi
-cd /verif && VERIF_REPO=$WT ./check $PROP --tier ${TIER:-quick} 2>&1 | tail -${TAIL:-8}
+cd /verif && VERIF_REPO=$WT timeout ${MUT_TIMEOUT:-1200} ./check $PROP --tier ${TIER:-quick} 2>&1 | tail -${TAIL:-8}
 echo "exit=${PIPESTATUS[0]}"
